@@ -633,6 +633,45 @@ def build_value(schema, desc, v):
     raise ValueError(k)
 
 
+def schema_problem(obj, depth=0):
+    """pyasn1 reports some ill-formed schemas lazily (PostponedError objects in the
+    tag maps).  Returns a description of the first such problem, or None (W7)."""
+    univ = p.univ
+    PE = p.namedtype.NamedTypes.PostponedError
+    if depth > 12:
+        return None
+    try:
+        if isinstance(obj, (univ.Sequence, univ.Set, univ.Choice)):
+            nt = obj.componentType
+            if isinstance(obj, (univ.Set, univ.Choice)) and isinstance(nt.tagMapUnique, PE):
+                return 'tagMapUnique'
+            if isinstance(obj, univ.Choice) or isinstance(obj, univ.Set):
+                pass
+            else:
+                for idx in range(len(nt)):
+                    if nt[idx].isOptional or nt[idx].isDefaulted:
+                        if isinstance(nt.getTagMapNearPosition(idx), PE):
+                            return 'tagMapNearPosition'
+            if isinstance(obj.tagMap, PE) if hasattr(obj, 'tagMap') else False:
+                return 'tagMap'
+            for idx in range(len(nt)):
+                sub = schema_problem(nt[idx].asn1Object, depth + 1)
+                if sub:
+                    return sub
+                ot = nt[idx].openType
+                if ot:
+                    for v in ot.values():
+                        sub = schema_problem(v, depth + 1)
+                        if sub:
+                            return sub
+        elif isinstance(obj, (univ.SequenceOf, univ.SetOf)):
+            if obj.componentType is not None:
+                return schema_problem(obj.componentType, depth + 1)
+    except p.error.PyAsn1Error as e:
+        return 'raises:%s' % str(e)[:40]
+    return None
+
+
 # ---------------------------------------------------------------------------
 # abstract value
 
